@@ -577,14 +577,24 @@ def case_loadcases(rep):
         rng = rng_for(run.seed, "C08", "loadcases", rep)
         attach_monitors(run)
         try:
-            for dim in (3, 2):
+            for dim, offset in ((3, False), (2, False), (3, True), (2, True)):
+                # offset: a body away from the origin (end faces = outermost positions of the points); the symmetry planes of the load
+                # cases sit at the origin (one-line summaries of the functions), so those runs use sym=False / explicit plane positions
+                o = rng.uniform(0.5, 2.0, dim) * rng.choice([-1.0, 1.0], dim) if offset else np.zeros(dim)
                 if dim == 3:
-                    mesh = fem.Cube(a=(0, 0, 0), b=(2, 3, 1), n=(3, 4, 3))
-                    field = fem.FieldContainer([fem.Field(fem.RegionHexahedron(mesh), dim=3)])
+                    mesh = fem.Cube(a=tuple(o), b=tuple(o + np.array([2.0, 3.0, 1.0])), n=(3, 4, 3))
+                    if rep % 2:
+                        mesh.update(points=np.vstack([mesh.points, o + np.array([2.5, 1.0, 0.5])]))  # a point without cells
+                        field = fem.FieldsMixed(fem.RegionHexahedron(mesh), n=3)  # dual fields behind the displacement field
+                        run.units["loadcase:mixed-container"] += 1
+                    else:
+                        field = fem.FieldContainer([fem.Field(fem.RegionHexahedron(mesh), dim=3)])
                 else:
-                    mesh = fem.Rectangle(a=(0, 0), b=(2, 3), n=(4, 3))
+                    mesh = fem.Rectangle(a=tuple(o), b=tuple(o + np.array([2.0, 3.0])), n=(4, 3))
                     field = fem.FieldContainer([fem.FieldPlaneStrain(fem.RegionQuad(mesh), dim=2)])
                 f = field[0]
+                if offset:
+                    run.units["loadcase:offset-body"] += 1
                 calls = []
                 for _ in range(4 if run.tier == "quick" else 12):
                     axis = int(rng.integers(0, dim))
@@ -611,6 +621,15 @@ def case_loadcases(rep):
                                                 sym=bool(rng.integers(0, 2)))))
                     calls.append(("symmetry", dict(axes=symt, x=float(planes[0][1]), y=float(planes[1][-1]), z=float(planes[-1][1]) if dim == 3 else 0.0)))
                     run.units["loadcase:position-arguments"] += 1
+                if offset:
+                    keep = []
+                    for name, kw in calls:
+                        if name == "symmetry" and "x" in kw and kw["x"] == 0.0 and kw.get("z", 0.0) == 0.0:
+                            continue  # planes through the origin: no points of the offset body
+                        if name != "symmetry":
+                            kw = dict(kw, sym=False)
+                        keep.append((name, kw))
+                    calls = keep
                 for name, kw in calls:
                     run._label = "loadcase:%s:%dd" % (name, dim)
                     if name == "symmetry":
@@ -623,7 +642,10 @@ def case_loadcases(rep):
                         bounds, lc = getattr(fem.dof, name)(field, **kw)
                         dof0, ext0 = lc["dof0"], lc["ext0"]
                     model = loadcase_model(name, f, kw)
-                    ref = np.array(sorted(f.dim * p + i for (p, i) in model), dtype=int)
+                    # the documented planes / components on the displacement field (first in the container), plus - as for every
+                    # partition - all unknowns of points that belong to no cell (any field of the container)
+                    cellless = Model(field).dof0({})
+                    ref = np.array(sorted(set(f.dim * p + i for (p, i) in model) | set(int(g) for g in cellless)), dtype=int)
                     unit = "loadcase:%s" % name
                     if np.array_equal(np.asarray(dof0), ref):
                         run.ok("dof.loadcase", unit=unit, config=(name, dim, str(sorted(kw.items()))[:80]),
@@ -639,6 +661,8 @@ def case_loadcases(rep):
                     # where exactly one value is documented for an unknown, ext0 must carry it
                     bad = 0
                     for k, g in enumerate(dof0):
+                        if int(g) in set(int(x) for x in cellless) and (int(g) // f.dim, int(g) % f.dim) not in model:
+                            continue  # unknowns of cell-less points keep their current value
                         vals = model[(int(g) // f.dim, int(g) % f.dim)]
                         if not any(abs(ext0[k] - v) <= 1e-15 for v in vals):
                             bad += 1
@@ -659,7 +683,7 @@ def cases(tier, seed):
         for rep in range(reps):
             out.append(("partition:%s:%d" % (kind, rep), case_partition(kind, rep)))
         out.append(("numbering:" + kind, case_numbering(kind)))
-    for rep in range(1 if tier == "quick" else 6):
+    for rep in range(2 if tier == "quick" else 6):
         out.append(("loadcases:%d" % rep, case_loadcases(rep)))
     return out
 
@@ -668,7 +692,7 @@ SPEC = {
     "required_units": ["partition:disjoint", "partition:cover", "partition:dof0", "boundary:selection", "apply:alignment", "values", "container+",
                        "container-", "container+=", "container-=", "container+list", "getitem", "single-entry-assembly",
                        "solve.partition", "points-without-cells", "fields:2", "fields:3", "loadcase:symmetry",
-                       "loadcase:uniaxial", "loadcase:biaxial", "loadcase:shear", "loadcase:uniaxial:values"]
+                       "loadcase:uniaxial", "loadcase:biaxial", "loadcase:shear", "loadcase:uniaxial:values", "loadcase:mixed-container", "loadcase:offset-body"]
     + ["feature:" + s for s in ("float", "callable", "and", "skip", "pointmask", "dofmask", "array-dim", "array-full", "or2", "three", "array-skip", "mask-skip", "dofmask-skip", "update")],
     "rule": ("7 container kinds (1..3 fields, constant/linear/disconnected duals, scalar+vector, points without cells) x random "
              "dictionaries of 1..4 possibly overlapping boundaries (coordinate floats/callables, and/or, skip tuples, point and dof "
